@@ -149,7 +149,16 @@ def find_fn_line(lines, fn_name, impl_name=None):
                 if seen and depth <= 0:
                     break
         return None
+    in_block = False
     for i in range(start, len(lines)):
+        # skip `/* ... */` block comments (src/range_dec.rs keeps a commented-out old version of a function)
+        if in_block:
+            if "*/" in lines[i]:
+                in_block = False
+            continue
+        if lines[i].strip().startswith("/*") and "*/" not in lines[i]:
+            in_block = True
+            continue
         if re.search(r"\bfn\s+%s\s*[<(]" % re.escape(fn_name), lines[i]):
             return i
     return None
